@@ -118,6 +118,7 @@ func battery(c cfgT) func(s *sl.ShardSystem) {
 			return
 		}
 		sl.PQCheck(&s.Obs, "flat", env, s.M, prop)
+		sl.VectorKeysCheck(&s.Obs, "flat", d["index/vectorFlat/"+prop], sl.NodeIds(d), s.M, prop)
 		for qi, qv := range queries {
 			for _, limit := range []int{1, 2, 75} {
 				for _, w := range []*float32{nil, f32(0.5), f32(-2), f32(0)} {
